@@ -81,6 +81,7 @@ impl Compiler {
         self.current.call_site_count = self.next_call_site_slot;
         self.current.global_layout = self.build_global_layout();
         self.current.compute_global_layout_hash();
+        self.ensure_jumps_in_range(aelys_syntax::Span::dummy())?;
         self.current.finalize_bytecode();
 
         Ok((self.current, self.heap, self.globals))
